@@ -125,11 +125,18 @@ def _load_parameter(obj_dict: dict[str, Any]) -> Parameter:
 def _attach_parent_to_expr(expr: expressions.Expr | str | None, parent: Module | Class) -> None:
     if not isinstance(expr, expressions.Expr):
         return
-    for elem in expr:
-        if isinstance(elem, expressions.ExprName):
-            elem.parent = parent
-        elif isinstance(elem, expressions.ExprAttribute) and isinstance(elem.first, expressions.ExprName):
-            elem.first.parent = parent
+    if isinstance(expr, expressions.ExprName):
+        expr.parent = parent
+    elif isinstance(expr, expressions.ExprAttribute):
+        # Only the first value of an attribute chain is looked up in the scope:
+        # the following names are resolved from their predecessor (see `_load_expression`).
+        _attach_parent_to_expr(expr.first, parent)
+        for value in expr.values[1:]:
+            if not isinstance(value, expressions.ExprName):
+                _attach_parent_to_expr(value, parent)
+    else:
+        for elem in expr:
+            _attach_parent_to_expr(elem, parent)
 
 
 def _attach_parent_to_exprs(obj: Class | Function | Attribute, parent: Module | Class) -> None:
